@@ -513,16 +513,34 @@ Label BaseBuilder::new_named_label(const char* name, size_t name_size, LabelType
   Label label;
 
   if (ASMJIT_LIKELY(_code)) {
+    // Everything the builder needs is allocated before the name is registered - a name registered by a call that
+    // then fails could never be created again (LabelAlreadyDefined).
+    uint32_t next_id = uint32_t(_code->label_count());
+    Error err = next_id >= _label_nodes.size() ? _label_nodes.reserve_additional(_builder_arena, next_id - _label_nodes._size + 1u) : Error::kOk;
+    LabelNode* node = nullptr;
+
+    if (ASMJIT_LIKELY(err == Error::kOk)) {
+      err = new_node_t<LabelNode>(Out(node), next_id);
+    }
+
+    if (ASMJIT_UNLIKELY(err != Error::kOk)) {
+      report_error(err);
+      return label;
+    }
+
     uint32_t label_id;
-    Error err = _code->new_named_label_id(Out(label_id), name, name_size, type, parent_id);
+    err = _code->new_named_label_id(Out(label_id), name, name_size, type, parent_id);
 
     if (ASMJIT_UNLIKELY(err != Error::kOk)) {
       report_error(err);
     }
     else {
-      if (ASMJIT_LIKELY(Builder_new_label_internal(this, label_id) == Error::kOk)) {
-        label.set_id(label_id);
+      while (_label_nodes.size() < label_id) {
+        _label_nodes.append_unchecked(nullptr);
       }
+      _label_nodes.append_unchecked(node);
+      node->_label_id = label_id;
+      label.set_id(label_id);
     }
   }
 
@@ -730,12 +748,13 @@ Error BaseBuilder::embed_const_pool(const Label& label, const ConstPool& pool) {
     return report_error(make_error(Error::kInvalidLabel));
   }
 
-  ASMJIT_PROPAGATE(align(AlignMode::kData, uint32_t(pool.alignment())));
-  ASMJIT_PROPAGATE(bind(label));
-
+  // Allocate the data node first - once the label is bound the call must not fail anymore.
   EmbedDataNode* node;
   ASMJIT_PROPAGATE(new_embed_data_node(Out(node), TypeId::kUInt8, nullptr, pool.size()));
   ASMJIT_ASSUME(node != nullptr);
+
+  ASMJIT_PROPAGATE(align(AlignMode::kData, uint32_t(pool.alignment())));
+  ASMJIT_PROPAGATE(bind(label));
 
   pool.fill(node->data());
   add_node(node);
